@@ -320,7 +320,9 @@ func ruleKeyBinding(c *Ctx, rule string) {
 		// membership of the previous epoch is what the final group file says, nothing else: the participant lists of the
 		// stored *proposal* (Remaining / Joining / Leaving of the state) also name nodes that never got a share
 		nCA := 0
-		for _, ci := range callsIn(fr, func(ci ssa.CallInstruction) bool { return strings.HasSuffix(calleeName(ci), "internal/util.ContainsAll") }) {
+		for _, ci := range callsIn(fr, func(ci ssa.CallInstruction) bool {
+			return strings.HasSuffix(calleeName(ci), "internal/util.ContainsAll")
+		}) {
 			nCA++
 			bad := ""
 			for _, a := range ci.Common().Args {
